@@ -55,8 +55,36 @@ TornAtConforms(ev) ==
   /\ ev.accepted \/ ev.outcome.err # "panic"
   /\ ev.accepted => ev.answers_like_full
 
+\* a production-sized file (megabytes: TLC does not decode it byte by byte): the harness's own field reader - written
+\* from the documented layout, independent of the library - streams the header counts, the class table and, per
+\* class, the KEYS of its member and by-params entries run-length encoded in section order.  The ordering and tiling
+\* clauses of C09 on that: length implied by the header; class names strictly ascending; member and by-params
+\* ranges tile their sections in class order; inside a class member names ascend and (name, parameters) pairs of
+\* the by-params entries ascend (runs of equal keys are adjacent, so the run keys ascend STRICTLY)
+LL == INSTANCE CacheLayout
+RECURSIVE TilesRuns(_, _, _, _, _)
+TilesRuns(cs, k, pos, offF, lenF) ==
+  IF k > Len(cs) THEN pos
+  ELSE IF cs[k][offF] # pos THEN -1 ELSE TilesRuns(cs, k + 1, pos + cs[k][lenF], offF, lenF)
+RunLen(runs) == LET RECURSIVE S(_) S(i) == IF i = 0 THEN 0 ELSE runs[i].count + S(i - 1) IN S(Len(runs))
+BigLayoutConforms(ev) ==
+  /\ ev.len = LL!Total(ev.header.nc, ev.header.nm, ev.header.np, ev.header.ns)
+  /\ Len(ev.classes) = ev.header.nc
+  /\ \A k \in 1..(Len(ev.classes) - 1) : LexLess(ev.classes[k].name, ev.classes[k + 1].name)
+  /\ TilesRuns(ev.classes, 1, 0, "moff", "mlen") = ev.header.nm
+  /\ TilesRuns(ev.classes, 1, 0, "boff", "blen") = ev.header.np
+  /\ \A k \in 1..Len(ev.classes) :
+       LET c == ev.classes[k] IN
+       /\ RunLen(c.member_runs) = c.mlen /\ RunLen(c.byparam_runs) = c.blen
+       /\ \A j \in 1..(Len(c.member_runs) - 1) : LexLess(c.member_runs[j].name, c.member_runs[j + 1].name)
+       /\ \A j \in 1..(Len(c.byparam_runs) - 1) :
+            LET a == c.byparam_runs[j] b == c.byparam_runs[j + 1] IN
+            LexLess(a.name, b.name) \/ (a.name = b.name /\ LexLess(a.params, b.params))
+  /\ ev.strings_ok
+
 Conforms(ev) ==
   CASE ev.t = "samebig" -> SameBigConforms(ev)
+    [] ev.t = "biglayout" -> BigLayoutConforms(ev)
     [] ev.t = "torn_at" -> TornAtConforms(ev)
     [] ev.t = "written" -> WrittenConforms(ev)
     [] ev.t = "parse" -> ParseConforms(ev)
